@@ -211,7 +211,7 @@ def c17_execute(trace, tier, res, gen=False):
                 dd = yaml.safe_load(fc["text"])
             except yaml.YAMLError:
                 continue
-            if broken_rule(dd) is not None:
+            if broken_rule(dd) is not None or ambiguous(dd):
                 continue
             try:
                 cfg2 = reader.from_yaml_text(fc["text"], name="doc")
@@ -879,6 +879,21 @@ def broken_rule(d):
         if sl <= 0:
             return "step_limit"
     return None
+
+
+def ambiguous(d):
+    """A host firewall that names the same source address twice in
+    different spellings: the format does not say which entry counts, so the
+    document gives no verdict."""
+    try:
+        for h in d["host_configurations"].values():
+            fw = h.get("firewall") or {}
+            keys = [reader.parse_addr(k) for k in fw]
+            if len(set(keys)) != len(keys):
+                return True
+    except Exception:
+        return True
+    return False
 
 
 def flip_cases(text, rng, n):
